@@ -186,6 +186,40 @@ GOLDEN["golden_scope.json"] = (SCOPE_SPEC, [
 ])
 
 
+LOADER_SPEC = {
+    "calls": [("identity", r"SourcePath::identity$"), ("map.get", r"HashMap::<K, V, S(, A)?>::get$"), ("map.insert", r"HashMap::<K, V, S(, A)?>::insert$"),
+              ("provider.load", r"SourceProvider::load$|SourceProvider>::load$"), ("provider.load_optional", r"SourceProvider::load_optional$|load_optional$"),
+              ("load_template", r"::load_template$"), ("load_import", r"::load_import$"), ("load_signature", r"::load_signature$"),
+              ("load_canonical", r"::load_canonical$"), ("alloc", r"ArenaDense.*::alloc$|::alloc$"), ("ensure_acyclic", r"::ensure_acyclic$"),
+              ("companion", r"SourceKind::companion$"), ("join", r"Path::join$"), ("overlay_path", r"::overlay_path$"), ("parent", r"Path::parent$"),
+              ("is_absolute", r"Path::is_absolute$"), ("dependencies", r"SourceGraph::dependencies$"), ("target", r"SourceDependency::target$"),
+              ("push", r"Vec::<T, A>::push$"), ("pop", r"Vec::<T, A>::pop$"), ("position", r"::position$"), ("find_map", r"::find_map$"),
+              ("visit", r"::visit$"), ("set.insert", r"HashSet::<T, S(, A)?>::insert$"),
+              ("chain", r"::chain$"), ("once", r"sources::once::once$"), ("run", r"::run$"), ("is_none", r"Option::<T>::is_none$"),
+              ("for_each", r"::for_each$"), ("map", r"Option::<T>::map$"), ("then", r"::then$"), ("is", r"Meta::is$"),
+              ("arguments", r"Meta::arguments$"), ("try_from", r"::try_from$"), ("SourceNumber::new", r"SourceNumber::new$"),
+              ("is_empty", r"::is_empty$"), ("err", r"ImportDirectiveError::\w+$|SourceLoadError::\w+$|source::err::SourceCycle$"),
+              ("variant", r"VisitState::\w+$|ImportTarget::\w+$|SourceDependency::\w+$")],
+    "ctors": [],
+    "assign": [r"imports\)$", r"signature\)$"],
+    "branch_ifs": True,
+    "branch_matches": True,
+    "returns": True,
+}
+GOLDEN["golden_loader.json"] = (LOADER_SPEC, [
+    ("load_root", "zydeco_session::source::loader::SourceGraphLoader::<Provider>::load_root", "seqwhole"),
+    ("load_canonical", "zydeco_session::source::loader::SourceGraphLoader::<Provider>::load_canonical", "seqwhole"),
+    ("load_template", "zydeco_session::source::loader::SourceGraphLoader::<Provider>::load_template", "seqwhole"),
+    ("load_signature", "zydeco_session::source::loader::SourceGraphLoader::<Provider>::load_signature", "seqwhole"),
+    ("load_import", "zydeco_session::source::loader::SourceGraphLoader::<Provider>::load_import", "seqwhole"),
+    ("SourceGraph::dependencies", "zydeco_session::source::graph::SourceGraph::dependencies", "seqwhole"),
+    ("SourceDependency::target", "zydeco_session::source::graph::SourceDependency::target", "seqwhole"),
+    ("SourceCycleDetector::visit", "zydeco_session::source::graph::SourceCycleDetector::<'graph>::visit", "seqwhole"),
+    ("ProviderOrder::visit", "zydeco_session::source::graph::ProviderOrder::<'graph>::visit", "seqwhole"),
+    ("ImportSite::decode", "zydeco_surface::textual::source::ImportSite::decode", "seqwhole"),
+])
+
+
 def compute(facts, fname):
     spec, fns = GOLDEN[fname]
     out = {}
@@ -201,11 +235,11 @@ def compute(facts, fname):
     return out
 
 
-def check(ctx, rule, fname):
+def check(ctx, rule, fname, only=None):
     ref = load(fname)
     cur = compute(ctx.facts, fname)
     for label, r in ref.items():
-        if label.startswith("_"):
+        if label.startswith("_") or (only is not None and label not in only):
             continue
         fn = r["fn"]
         c = cur.get(label)
